@@ -310,7 +310,6 @@ def stage_traces(art, index, names=None):
 def run_stage_traces(workdir, traces):
     wd = os.path.join(workdir, "trace")
     os.makedirs(wd, exist_ok=True)
-    tp, cp = os.path.join(wd, "traces.json"), os.path.join(wd, "cfg.json")
-    json.dump(traces, open(tp, "w"))
+    cp = os.path.join(wd, "cfg.json")
     json.dump({"reference": {"none|none": ""}}, open(cp, "w"))
-    return tlc_batch("TracePipeline", "TracePipeline.cfg", wd, {"SCCV_CASES": tp, "SCCV_CFG": cp}, len(traces), timeout=3000)
+    return tlc_batch_chunked("TracePipeline", "TracePipeline.cfg", wd, traces, envkey="SCCV_CASES", extra_env={"SCCV_CFG": cp}, timeout=3000)
